@@ -271,6 +271,24 @@ func (g *Gen) Hostile() (kind string, body []byte) {
 	r := g.R
 	q := g.Valid()
 	valid := JSONBytes(q.Body)
+	if r.Bool(0.04) {
+		// a small body that declares many criteria (and values for them) without the parameters a
+		// method would need for that many: must be rejected promptly, whatever the method
+		b := CloneJ(q.Body).(map[string]interface{})
+		n := r.Range(24, 48)
+		cs := jarr(b["criteria"])
+		for i := 0; i < n; i++ {
+			id := "extra" + string(rune('a'+i%26)) + string(rune('a'+i/26))
+			cs = append(cs, J{"id": id, "type": "gain"})
+			for _, a := range jarr(b["knownAlternatives"]) {
+				if m := jmap(jmap(a)["criteria"]); m != nil {
+					m[id] = float64(i % 7)
+				}
+			}
+		}
+		b["criteria"] = cs
+		return "many-criteria", JSONBytes(b)
+	}
 	switch r.Intn(22) {
 	case 17, 18, 19, 20, 21:
 		// well-formed JSON, 1-3 random structural edits anywhere in the request tree: keys removed,
